@@ -52,7 +52,8 @@ def main(ck):
     results = {}
     skipped = 0
     jobs = []
-    for bname, (header, cflags, observers) in BUILDS.items():
+    def build_one(bname):
+        header, cflags, observers = BUILDS[bname]
         srcs = {n: s.replace('@@HEADER@@', header) for n, s in sources.items()}
         srcs['c45log'] = gen.LOG_PYX
         bd = tree.subdir('b_' + bname)
@@ -60,7 +61,11 @@ def main(ck):
             f.write(gen.LOG_PXD)
         with open(os.path.join(bd, 'c45py.py'), 'w') as f:
             f.write(pysrc)
-        d, info = tree.build_sources(srcs, subdir='b_' + bname, ext='.pyx', cflags=cflags)
+        return tree.build_sources(srcs, subdir='b_' + bname, ext='.pyx', cflags=cflags)
+    with ThreadPoolExecutor(len(BUILDS)) as ex:       # the three build configurations are built concurrently
+        build_results = dict(zip(BUILDS, ex.map(build_one, list(BUILDS))))
+    for bname, (header, cflags, observers) in BUILDS.items():
+        d, info = build_results[bname]
         bad = [n for n, i in info.items() if not i['ok']]
         if bad:
             skipped += len(bad)
